@@ -228,6 +228,10 @@ REDEF = [
     ('#define A a*b', '#define A a *b', False), ('#define A a+b', '#define A a+ b', False), ('#define A p->q', '#define A p ->q', False), ('#define A a.b', '#define A a. b', False), ('#define A (a)', '#define A (a )', False),
     ('#define A a/**/b', '#define A a b', True), ('#define A a/**/b', '#define A ab', False), ('#define A a/b/**/', '#define A a/b', True), ('#define A /**/a/b', '#define A a/b', True),
     ('#define A ab', '#define A a b', False), ('#define A a\\\nb', '#define A ab', True), ('#define A +', '#define A + ', True), ('#define A . .', '#define A ..', False),
+    # replacement lists of different length: one a proper prefix of the other, or empty
+    ('#define A 100 + 28', '#define A 100', False), ('#define A 100', '#define A 100 + 28', False), ('#define A 1', '#define A', False), ('#define A 1 2 3', '#define A 1 2', False), ('#define A a b', '#define A a b c', False),
+    ('#define A(x) x + 1', '#define A(x) x', False), ('#define A(x) x', '#define A(x) x + 1', False), ('#define A(x) x', '#define A(x)', False), ('#define A(x)', '#define A(x) x', False), ('#define A() a b', '#define A() a', False),
+    ('#define A(x) #x x', '#define A(x) #x', False), ('#define A(...) __VA_ARGS__ 1', '#define A(...) __VA_ARGS__', False), ('#define A "a" "b"', '#define A "a"', False), ('#define A ( ( x ) )', '#define A ( ( x )', False),
 ]
 
 
